@@ -53,6 +53,10 @@ def cstr (b : Bytes) : Bytes := b.takeWhile (· != 0)
 def at? (s : Bytes) (i : Nat) : M UInt8 :=
   if i < s.length then pure (s.getD i 0) else if i = s.length then pure 0 else throw .oob
 
+/-- the same access on an array copy of the string (constant time; `atA?_eq` in AslProofs shows it is `at?`) -/
+def atA? (a : Array UInt8) (i : Nat) : M UInt8 :=
+  if i < a.size then pure (a.getD i 0) else if i = a.size then pure 0 else throw .oob
+
 /-- `String::substring(i, j)`: `memcpy(dst, str()+i, j-i)` — needs `i ≤ j ≤ length()` -/
 def substring? (s : Bytes) (i j : Nat) : M Bytes :=
   if i ≤ j ∧ j ≤ s.length then pure ((s.drop i).take (j - i)) else throw .oob
@@ -248,20 +252,20 @@ structure DecSt where
   i : Nat
   acc : Bytes     -- output so far, reversed
 
-/-- body of the `for (i = 0; i < q0.length(); i++)` loop of `Url::decode` -/
-def decodeStep (q0 : Bytes) (x : DecSt) : M (Step DecSt Bytes) :=
-  if x.i < q0.length then do
-    let c ← at? q0 x.i
+/-- body of the `for (i = 0; i < q0.length(); i++)` loop of `Url::decode` (`q0` as an array, for O(1) `q0[i]`) -/
+def decodeStep (q0 : Array UInt8) (x : DecSt) : M (Step DecSt Bytes) :=
+  if x.i < q0.size then do
+    let c ← atA? q0 x.i
     if c == 37 then
-      if x.i + 2 > q0.length then pure (.done x.acc.reverse)          -- `i > length() - 2`: break
+      if x.i + 2 > q0.size then pure (.done x.acc.reverse)          -- `i > length() - 2`: break
       else do
-        let b0 ← at? q0 (x.i + 1)
-        let b1 ← at? q0 (x.i + 2)
+        let b0 ← atA? q0 (x.i + 1)
+        let b1 ← atA? q0 (x.i + 2)
         pure (.next ⟨x.i + 3, hexByte b0 b1 :: x.acc⟩)
     else pure (.next ⟨x.i + 1, c :: x.acc⟩)
   else pure (.done x.acc.reverse)
 
-def urlDecode (q0 : Bytes) : M Bytes := iterate (decodeStep q0) (q0.length + 1) ⟨0, []⟩
+def urlDecode (q0 : Bytes) : M Bytes := iterate (decodeStep q0.toArray) (q0.length + 1) ⟨0, []⟩
 
 /-! ## the path: `fix()`, `contains("..")`, `replace("..", "")`, `split('/')` -/
 
